@@ -89,6 +89,22 @@ def run_case(case, want_trace=False):
             done["noise"] = req
 
         t_start = 1.0
+        # traffic of the same peer shortly before: its messages live in another message-ID space, so even one that
+        # happens to carry the ID our CON is about to get must not influence the exchange
+        for pi, pre in enumerate(case.get("prelude", [])):
+            pmid = (case.get("mid0", 0) if pre["mid"] == "same" else (case.get("mid0", 0) + 77)) & 0xFFFF
+            if pre["kind"] == "ping":
+                pdata = R.msg(R.CON, 0, pmid)
+            elif pre["kind"] == "stray_ack":
+                pdata = R.msg(R.ACK, 0, pmid)
+            elif pre["kind"] == "stray_rst":
+                pdata = R.msg(R.RST, 0, pmid)
+            elif pre["kind"] == "non_request":
+                pdata = R.msg(R.NON, R.GET, pmid, b"\x77", [(R.O_URI_PATH, "nowhere")])
+            else:
+                pdata = R.msg(R.CON, R.GET, pmid, b"\x77", [(R.O_URI_PATH, "nowhere")])
+            net.at(t_start - pre["dt"], server.send, CLIENT, pdata)
+            labels.append("prelude:" + pre["kind"] + ":" + pre["mid"])
         net.at(t_start, start)
         if case.get("noise") is not None:
             net.at(t_start + case["noise"], start_noise)
@@ -118,8 +134,8 @@ def run_case(case, want_trace=False):
         # stop event: first delivery to the client of ACK/RST with that MID from the server's address
         stop = None
         for d in net.deliveries:
-            if d["to"] != "client" or d["src"] != server.addr:
-                continue
+            if d["to"] != "client" or d["src"] != server.addr or d["t"] < t0:
+                continue  # (what arrived before the CON was first sent cannot acknowledge it)
             try:
                 f = R.decode(d["data"])
             except R.FormatError:
@@ -248,6 +264,10 @@ TUNINGS = [
 
 
 def cases_grid():
+    for kind in ("ping", "stray_ack", "stray_rst", "request", "non_request"):
+        for mid in ("same", "other"):
+            for reply in ("ack", "rst", "ack_piggy"):
+                yield {"tuning": TUNINGS[1], "rng": 5, "mid0": 0x4321, "prelude": [{"kind": kind, "mid": mid, "dt": 0.3}], "plan": [{"copy": 1, "kind": reply, "frac": 0.0}]}
     for ti, tun in enumerate(TUNINGS):
         for k in [None] + list(range(tun["mr"] + 1)):
             if k is None:
@@ -290,6 +310,9 @@ def _random_case(draw):
         case["noise"] = draw(st.sampled_from([0.0, 0.01, 1.0, 3.0]))
     if draw(st.integers(0, 3)) == 0:
         case["mid0"] = draw(st.sampled_from([0, 0xFFFF, 0xFFFE, 1]))
+    if draw(st.integers(0, 2)) == 0:
+        case.setdefault("mid0", draw(st.sampled_from([0x1234, 0xFFFF, 0])))
+        case["prelude"] = draw(st.lists(st.fixed_dictionaries({"kind": st.sampled_from(["ping", "stray_ack", "stray_rst", "request", "non_request"]), "mid": st.sampled_from(["same", "same", "other"]), "dt": st.sampled_from([0.5, 0.2, 0.01])}), min_size=1, max_size=2))
     return case
 
 
@@ -317,7 +340,7 @@ RULE = (
     "generated: TransportTuning (ACK_TIMEOUT 0.05-8, ACK_RANDOM_FACTOR 1-3, MAX_RETRANSMIT 0-6), per-arrival reply plan "
     "(ACK / piggybacked ACK / RST / ACK or RST with another MID / from another address or port; delays absolute or as a "
     "fraction of the current gap so that replies land just before/after a retransmission), per-datagram fates (drop/delay/dup), "
-    "a concurrent exchange with another peer, initial MID. Oracle from wire timestamps: byte-identical copies, <= 1+MAX_RETRANSMIT, "
+    "a concurrent exchange with another peer, initial MID, and earlier traffic of the same peer (ping, stray ACK/RST, CON/NON request) carrying the very message ID the CON is about to get. Oracle from wire timestamps: byte-identical copies, <= 1+MAX_RETRANSMIT, "
     "first gap in [AT, AT*ARF], later gaps exactly doubled, no copy after arrival of same-MID ACK/RST from the peer, every scheduled "
     "copy before that is present (decoys change nothing), RST fails the request at once, no reply => TimeoutError/NetworkError exactly "
     "one doubled interval after the last copy and <= MAX_TRANSMIT_WAIT. grid = full enumeration of 6 tunings x reply-at-copy k x 8 kinds x "
